@@ -1,0 +1,12 @@
+//go:build verif
+
+package cache
+
+// VerifEach calls f for every cached slot.
+func (c *Cache) VerifEach(f func(id uint64, obj interface{})) {
+	c.mu.Lock()
+	for id, e := range c.entries {
+		f(id, e.slot.Obj)
+	}
+	c.mu.Unlock()
+}
